@@ -38,7 +38,7 @@ RULE = ("each run builds an upload tree with symlinks and a prefix-sharing sibli
         "a plain relative one, or the request was not permitted")
 PROBES = ["write_fault_mid_file", "write_fault_at_0", "open_fault", "mkdir_fault", "replace_fault",
           "overwrite_existing", "symlink_to_outside", "symlink_inside", "traversal_spelling",
-          "sibling_prefix", "delete_request", "token_wrong", "size_over_limit", "upload_with_limit_zero", "via_protocol", "layout_changed_between_requests", "client_left_right_after_upload",
+          "sibling_prefix", "delete_request", "token_wrong", "size_over_limit", "upload_with_limit_zero", "via_protocol", "layout_changed_between_requests", "request_arrives_as_the_timer_is_due", "client_left_right_after_upload",
           "must_succeed_core", "fault_on_existing_file", "handler_from_server_config"]
 COMPONENTS = {
     "real": ["nauyaca.server.handler.FileUploadHandler", "nauyaca.protocol.request.TitanRequest "
@@ -231,6 +231,7 @@ def run_one(ch):
                 res.violate(f"C14/handler-raised/{type(err).__name__}",
                             "the upload handler raised instead of answering", **ctx)
                 continue
+            deadline_case = bool(via_proto and _VP.pop("deadline", False))
             ok2x = status is not None and 20 <= status <= 29
             client_left = via_proto and _VP.get("left") and status is None
             outside_touched = [k for k in file_changes
@@ -290,7 +291,7 @@ def run_one(ch):
                                  for j in [i for i, ch_ in enumerate(os.path.dirname(rel_dest) + os.sep)
                                            if ch_ == os.sep])
                 dest_ok = before.get(rel_dest, (None,))[0] in (None, "f")
-                if permitted and parents_ok and dest_ok and inside and \
+                if permitted and parents_ok and dest_ok and inside and not deadline_case and \
                         pclass in ("plain", "plain-existing") and not fired and \
                         not strictly_forbidden and tokv != 3 and \
                         (size > 0 or before.get(rel_dest, (None,))[0] == "f"):
@@ -332,6 +333,8 @@ def run_one(ch):
                     res.stats["upload_with_limit_zero"] += 1
             if via_proto:
                 res.stats["via_protocol"] += 1
+                if deadline_case:
+                    res.stats["request_arrives_as_the_timer_is_due"] += 1
             res.stats["requests"] += 1
             sigs.append((pclass, bool(permitted), fdesc and fdesc.split("-after-")[0],
                          status // 10 if status else None, tuple(sorted(len(k.split(os.sep)) for k in file_changes))))
@@ -359,8 +362,8 @@ def _via_protocol(ch, handler, line, content):
     mode = ch.pick("vpmode", ["plain", "stdlib", "pyopenssl"], [3, 1, 3])
     extra = b"TRAILING" if ch.chance("trail", 0.3) else b""
     head = line.encode() + b"\r\n" + content
-    flight = ch.choose("vpflight", 4, [5, 2, 2, 1])
-    _VP["left"] = flight >= 2
+    flight = ch.choose("vpflight", 5, [5, 2, 2, 1, 1])
+    _VP["left"] = flight in (2, 3)
     if flight == 0:
         # one write, cut by the network at drawn places
         script = [("send", head + extra)]
@@ -370,7 +373,11 @@ def _via_protocol(ch, handler, line, content):
         # the request ends exactly at a write (= TLS record) boundary and something else
         # follows in the same flight: undeclared bytes, or the client's goodbye
         pol = WholePolicy(0.001)
-        if flight == 1:
+        if flight == 4:
+            # the complete request arrives in the instant the 30 s request timer is due (or a
+            # millisecond before / after): answered 20 and stored, or 40 and nothing stored
+            script = [("sleep", ch.pick("vpdeadline", [29.998, 29.999, 30.0])), ("send", head + extra)]
+        elif flight == 1:
             script = [("send", head), ("send", extra or b"X")]
         elif flight == 2:
             script = [("send", head), ("close",)]
@@ -397,6 +404,8 @@ def _via_protocol(ch, handler, line, content):
         raise sim.error
     if status != "done":
         raise RuntimeError(f"C14 wire world ended with status {status}")
+    if flight == 4:
+        _VP["deadline"] = True
     if _VP["left"] and not out["rx"]:
         return None
     _VP["left"] = False
